@@ -1435,5 +1435,57 @@ func c12Record(env *Env) {
 				cmu.Unlock()
 			}
 		})
+
+		// a sample sheet larger than the 128 KiB the format sniffer reads at first (576 PCRs with long names), in both
+		// file formats; the scenarios fall on samples declared anywhere in the file
+		comp2 := map[byte]byte{'a': 't', 'c': 'g', 'g': 'c', 't': 'a'}
+		for fi, format := range []string{"csv", "old"} {
+			sh := c12RandSheet(r, 9000+fi, false)
+			sh.Mode, sh.Indel, sh.TagIndels = "strict", false, 0
+			sh.Markers = sh.Markers[:1]
+			m := &sh.Markers[0]
+			tags := map[string]bool{}
+			var ft, rt []string
+			for len(ft) < 24 {
+				if t := c12RandSeq(r, 8); !tags[t] {
+					tags[t] = true
+					ft = append(ft, t)
+				}
+			}
+			for len(rt) < 24 {
+				if t := c12RandSeq(r, 8); !tags[t] {
+					tags[t] = true
+					rt = append(rt, t)
+				}
+			}
+			m.Samples = m.Samples[:0]
+			for i, f := range ft {
+				for j, q := range rt {
+					// long sample names: 576 PCR lines make a file of about 170 KiB
+					m.Samples = append(m.Samples, c12Sample{Ft: f, Rt: q, Name: fmt.Sprintf("big_%02d_%02d_%s", i, j, strings.Repeat("x", 250))})
+				}
+			}
+			lib, text, problem := c12Library(sh, format)
+			if problem != "" {
+				env.emit(c12Event{K: "demux", Src: "T", Cls: "sheet/bigsheet", Fmt: format, Sheet: c12EvSheetOf(sh), Sc: c12NoScenario(), Read: []int{}, Readrc: []int{},
+					Out: []c12EvOut{}, Outrc: []c12EvOut{}, Fault: "sheet of " + strconv.Itoa(len(text)) + " bytes: " + problem})
+				continue
+			}
+			for k := 0; k < 8; k++ {
+				b := c12RandScenario(r, sh)
+				rcb := make([]byte, len(b.read))
+				for i := range b.read {
+					rcb[len(b.read)-1-i] = comp2[b.read[i]]
+				}
+				od := c12Extract(lib, sh, fmt.Sprintf("big%d_%d", fi, k), b.read)
+				or := c12Extract(lib, sh, fmt.Sprintf("big%d_%dc", fi, k), string(rcb))
+				fault := od.Fault
+				if fault == "" {
+					fault = or.Fault
+				}
+				env.emit(c12Event{K: "demux", Src: "T", Cls: b.cls + "/bigsheet", Fmt: format, Sheet: c12EvSheetOf(sh), Sc: b.sc, Read: c12Codes(b.read), Readrc: c12Codes(string(rcb)),
+					Out: c12EvOuts(od.Outs), None: c12B(od.None), Outrc: c12EvOuts(or.Outs), Nonerc: c12B(or.None), Fault: fault})
+			}
+		}
 	}
 }
